@@ -233,6 +233,10 @@ func c10StatObject(c *Ctx, a *sketchAnchors) {
 					if e.Kind == "store" && isRecvField(e.Addr, fn) {
 						v = e.Val
 					}
+					// whole-struct reset from the constructor: *s = *NewSummaryStatistics()
+					if e.Kind == "store" && e.Addr.isRecv() && e.Val.Op == "load" && e.Val.Args[0].Op == "call" && ctor != nil && e.Val.Args[0].Sym == funcName(ctor) {
+						v = zeroOf(fn)
+					}
 				}
 				if v == nil || v.Key() != zeroOf(fn).Key() {
 					ok = false
